@@ -22,7 +22,7 @@ def render(e, mode='text'):
     if k == 'irx':
         return f'{b}/{e[1]}/i'
     if k == 'byte':
-        return hex(e[1])
+        return f'0x{e[1]:02x}'
     if k == 'ref':
         return e[1]
     if k == 'fail':
